@@ -309,7 +309,7 @@ func init() {
 		Title: "Validator-set checkpoints form a chain an EVM light client can always follow",
 		Funcs: fcNP("x/bridge/keeper.Keeper.CompareAndSetBridgeValidators", "x/bridge/keeper.Keeper.SetBridgeValidatorParams", "x/bridge/keeper.Keeper.CalculateValidatorSetCheckpoint",
 			"x/bridge/keeper.Keeper.LastSavedValidatorSetStale", "x/bridge/keeper.Keeper.GetValidatorSetTimestampBefore", "x/bridge/keeper.Keeper.GetCurrentValidatorsEVMCompatible", "x/bridge/keeper.Keeper.PowerDiff",
-			"x/bridge/keeper.Keeper.GetCurrentValidatorSetEVMCompatible", "x/bridge/keeper.Keeper.SetBridgeValsetSignature", "x/bridge/keeper.Keeper.PowerDiff"),
+			"x/bridge/keeper.Keeper.GetCurrentValidatorSetEVMCompatible", "x/bridge/keeper.Keeper.SetBridgeValsetSignature", "app.VoteExtHandler.CheckAndSignValidatorCheckpoint"),
 		Assumptions: []string{
 			"trusted frames: EncodeAndHashValidatorSet (ABI packing and hashing, C15) and the staking keeper's GetAllValidators (assumed contract: reads only); codec MustMarshal is a pure read",
 			"block time is at least two weeks after 1970 and the checkpoint index stays below 2^64-1; stored validator sets have non-nil members",
@@ -345,7 +345,7 @@ func init() {
 		Funcs: fcNP("app.ProposalHandler.ProcessProposalHandler", "app.ProposalHandler.PreBlocker", "app.ProposalHandler.CheckInitialSignaturesFromLastCommit",
 			"app.ProposalHandler.CheckValsetSignaturesFromLastCommit", "app.ProposalHandler.CheckOracleAttestationsFromLastCommit", "app.ProposalHandler.SetEVMAddresses",
 			"x/bridge/keeper.Keeper.SetBridgeValsetSignature", "x/bridge/keeper.Keeper.SetOracleAttestation", "x/bridge/keeper.Keeper.SetEVMAddressByOperator", "x/bridge/keeper.Keeper.GetEVMAddressByOperator",
-			"app.VoteExtHandler.VerifyVoteExtensionHandler", "x/bridge/keeper.Keeper.EVMAddressFromSignatures"),
+			"app.VoteExtHandler.VerifyVoteExtensionHandler", "x/bridge/keeper.Keeper.EVMAddressFromSignatures", "app.VoteExtHandler.CheckAndSignValidatorCheckpoint"),
 		Assumptions: []string{
 			"json.Unmarshal is deterministic: the lengths of the lists it decodes are functions of the input bytes (jsonlen); nothing else about decoded content is modelled. reflect.DeepEqual on two slices implies equal lengths (and equal integer/string elements)",
 			"PreBlocker is entered only for blocks whose proposal ProcessProposal accepted (its precondition is ProcessProposal's postcondition on the same req.Txs[0]); stored validator sets have non-nil members",
@@ -355,7 +355,7 @@ func init() {
 			"that an honest proposer's proposal is always accepted, and that any single-element mutation of the injected data is rejected (element-wise equality through JSON round trips, nil versus empty lists) -- only the length alignment of the lists and 'every list was compared' are decided",
 			"that a validator's EVM address is registered only once over the life of the chain (decided: at most one registration per commit vote, the setter writes exactly the given operator, and EVMAddressFromSignatures returns an address that BOTH of the validator's two signatures over the two fixed messages recover to -- secp256k1 recovery itself, crypto.SigToPub in TryRecoverAddressWithBothIDs, is an uninterpreted function)",
 			"ctx.ConsensusParams().Abci is dereferenced without a nil check in ProcessProposal and PreBlocker, and ProcessProposal indexes req.Txs[0] without a length check (a panic there is recovered by baseapp and rejects the proposal): these panic obligations are not claimed",
-			"construction of a vote extension (ExtendVoteHandler: signing, keyring) is not under contract; VerifyVoteExtensionHandler is: a decodable extension is accepted only with signatures of at most 65 bytes and no more attestations than requested for the previous height, an undecodable one only from a validator without a registered EVM address, and the handler never returns an error",
+			"construction of a vote extension (ExtendVoteHandler: keyring, signing, JSON) is not under contract except for the choice of what to sign for the validator set (CheckAndSignValidatorCheckpoint: only the latest checkpoint, for the own operator, nothing when already signed or not a member; GetOperatorAddress and EncodeAndSignMessage are trusted, read-only); VerifyVoteExtensionHandler is: a decodable extension is accepted only with signatures of at most 65 bytes and no more attestations than requested for the previous height, an undecodable one only from a validator without a registered EVM address, and the handler never returns an error",
 		},
 	})
 }
